@@ -384,6 +384,7 @@ def run(prop, tier, seed, replay):
                 rep.violation(name, {'kind': 'property-violation-on-implementation', 'format': fmt, 'corruption': kind,
                                      'what': what, 'must_raise': must_raise, 'text': text}, found_input=found)
 
+        edif_tie = []
         for fmt in ('edif', 'verilog', 'eblif'):
             for name, text in sources(fmt, B['files'], B['max_bytes']):
                 cases = [(text, 'valid', -1)]
@@ -396,6 +397,8 @@ def run(prop, tier, seed, replay):
                     distinct.add(common.sha(ctext))
                     start_pol = rng.choice(['DEFAULT', 'EDIF'])
                     out, n, w = parse_text(fmt, ctext, tmpdir, B['timeout'], start_pol)
+                    if fmt == 'edif' and len(ctext) < 20000 and len(edif_tie) < B.get('tie', 1500):
+                        edif_tie.append((ctext, out, name, kind, k))
                     try:
                         hist['%s/%s/%s' % (fmt, kind.split(':')[0], out.split(':')[0])] += 1
                         after = sdn.namespace_manager.default
@@ -422,6 +425,37 @@ def run(prop, tier, seed, replay):
                         p1 = probe(baseline_texts, tmpdir)
                         if p1 != probe0:
                             fail('probe-%d' % total, fmt, ctext, kind, 'probe script behaves differently after rejections: %s vs fresh %s' % (p1, probe0))
+        # the EDIF theorems of Props/C15.v (every text the model accepts gives a well-formed netlist; the model is a
+        # total function, so it terminates on every text) are tied to the code here: the whole-file reader model
+        # Fmt/EdifFile.v (extracted) judges the very texts the real reader was given - accept/reject must agree
+        # (texts the model declares outside its subset are counted, not compared)
+        tie = {'cases': 0, 'compared': 0, 'unsupported': 0, 'disagreements': 0}
+        if edif_tie:
+            try:
+                import edif_file as ef
+                models = ef.run_model([c[0] for c in edif_tie])
+            except Exception as e:  # noqa
+                models = None
+                rep.violation('edif-tie-crash', {'kind': 'correspondence-broken', 'what': 'the EDIF whole-file model could not be run: %r' % e}, found_input=False)
+            tie_reported = 0
+            for (ctext, out, name, kind, k), mres in zip(edif_tie, models or []):
+                tie['cases'] += 1
+                if mres[0] == 'err' and mres[1] == 'unsupported':
+                    tie['unsupported'] += 1
+                    continue
+                tie['compared'] += 1
+                m_acc, i_acc = mres[0] == 'ok', out == 'returned'
+                if out != 'timeout' and m_acc != i_acc:
+                    what = 'EDIF reader model and implementation disagree: model %s, reader %s' % ('accepts' if m_acc else 'rejects (%s)' % mres[1], out)
+                    if known_match(known, 'edif', kind, what) is not None:
+                        known_hits[known_match(known, 'edif', kind, what)['id']] += 1
+                        continue
+                    tie['disagreements'] += 1
+                    if tie_reported < 3:
+                        tie_reported += 1
+                        rep.violation('edif-tie-%s-%s-%d' % (name, kind.replace(':', '_'), k),
+                                      {'kind': 'correspondence-broken', 'format': 'edif', 'corruption': kind, 'what': what,
+                                       'theorems': 'Props/C15.v: C15_edif_wf_or_error (model Fmt/EdifFile.v)', 'text': ctext}, found_input=False)
         sdn.namespace_manager.default = 'DEFAULT'
         p1 = probe(baseline_texts, tmpdir)
         if p1 != probe0:
@@ -435,7 +469,7 @@ def run(prop, tier, seed, replay):
             'obligations': len(theorems), 'discharged': len(theorems) if (ok and proof['ok']) else 0,
             'checker_cmd': 'cd /verif && tools/build.sh && ' + proof['cmd'],
             'trusted_base': ['Coq 8.16.1 kernel; Print Assumptions: ' + ('Closed under the global context' if 'Axioms' not in proof['assumptions'] else 'see print_assumptions'),
-                             'the model Fmt/Policy.v covers only the policy save/restore wrapper of the three readers; reader bodies are arbitrary computations in the theorems',
+                             'the model Fmt/Policy.v covers the policy save/restore wrapper of the three readers (reader bodies are arbitrary computations in those theorems); the EDIF reader body is modelled whole-file by Fmt/EdifFile.v (hand-written, extracted, tied to sdn.parse on the corrupted texts of this run and - with full structural comparison - in the C05 check)',
                              'harness/policy_check.py (corruption generator, SIGALRM timeout, well-formedness checkers harness/elab.py and ir_oracles.py)'],
             'theorems': theorems, 'print_assumptions': proof['assumptions'][-2000:],
             'programs': total, 'disagreements_checked': total,
@@ -443,13 +477,14 @@ def run(prop, tier, seed, replay):
             'rule': 'valid bundled/hand-written files of the three formats and single corruptions of them (truncate at a token, delete/duplicate/replace a token, garbage token, dangling reference); distinct by hash of the text; every case is non-trivial (>= 1 token)',
             'samples': samples or [{'note': 'none sampled'}],
             'format_corruption_outcome_histogram': dict(sorted(hist.items())),
+            'edif_whole_file_tie': tie,
             'probe_script_fresh': probe0, 'known_finding_hits': dict(known_hits), 'exhaustive': False,
         }
         common.write_evidence(prop, tier, seed, coverage, wall, len(rep.violations),
                               ['termination and "nothing half-built" are checked on the implementation only (runtime residue; no theorem)',
                                'character-level tokenisation of Verilog/EBLIF is not modelled'])
-        print('%s %s: %d inputs, outcomes %s, %d known-finding cases, proof %s (%d theorems), %.1fs' % (
-            prop, tier, total, dict(collections.Counter(k.split('/')[-1] for k in hist.elements())), sum(known_hits.values()),
+        print('%s %s: %d inputs, outcomes %s, EDIF reader model tie %d compared / %d disagreements, %d known-finding cases, proof %s (%d theorems), %.1fs' % (
+            prop, tier, total, dict(collections.Counter(k.split('/')[-1] for k in hist.elements())), tie['compared'], tie['disagreements'], sum(known_hits.values()),
             'ok' if (ok and proof['ok']) else 'BROKEN', len(theorems), wall))
         return rep.exit_code()
     finally:
